@@ -206,9 +206,7 @@ def run(F, R, tier):
                 if not arm:
                     R.inst("R07.1", "%s::%s=unmatched" % (short, v["name"]), False, sp=m["sp"])
                     continue
-                out = H.peel(arm["body"], refs=False)
-                while out.get("k") == "block" and not out["stmts"] and "tail" in out:
-                    out = H.peel(out["tail"], refs=False)
+                out = _arm_value(arm["body"])
                 is_self = H.local_of(out) and H.local_of(out)[0] == self_id
                 # bindings of the pattern by position / field name
                 binds = {}
@@ -278,14 +276,91 @@ def run(F, R, tier):
             "from duke's ADT table), atom→BRemapper-query table, owner-name argument provenance, jar entry-name handling and ClassRepr write table" % (n_struct, n_enum, n_cases))
 
 
+def _is_self_field(e, self_id, fname):
+    root, path = H.place_root(e)
+    return bool(root) and root[0] == self_id and [x for x in path if not x.startswith(".")] == [fname]
+
+
+def _optionness(cond, self_id, fname):
+    """`self.<f>.is_none()` -> "None", `self.<f>.is_some()` -> "Some" (through `!`), else None."""
+    c0, neg = H.negate_peel(cond)
+    if c0.get("k") == "mcall" and c0["name"] in ("is_none", "is_some") and _is_self_field(c0["recv"], self_id, fname):
+        none = (c0["name"] == "is_none") != neg
+        return "None" if none else "Some"
+    return None
+
+
+def _irrefutable(p):
+    p = H.pat_peel(p) if p.get("k") != "bind" else p
+    k = p.get("k")
+    if k in ("wild", "bind"):
+        return "sub" not in p or _irrefutable(p["sub"])
+    if k == "ptuple":
+        return all(_irrefutable(x) for x in p["pats"])
+    return False
+
+
+def _pat_option(p):
+    """"Some" for `Some(<irrefutable>)`, "None" for `None`, "any" for a catch-all, else None."""
+    p0 = H.pat_peel(p)
+    if p0.get("k") in ("wild",) or (p0.get("k") == "bind" and "sub" not in p0):
+        return "any"
+    v = H.pat_variant(p0)
+    if v and v[1] == "None":
+        return "None"
+    if v and v[1] == "Some" and p0.get("k") == "ptuplestruct" and all(_irrefutable(x) for x in p0["pats"]):
+        return "Some"
+    return None
+
+
 def _known_absent(body, node, self_id, fname):
+    """True when every evaluation of `node` happens on a path where `self.<fname>` is None — whatever the spelling of the test:
+    else-branch of `if let Some(..) = self.f`, the `else` block of `let Some(..) = self.f else {..}`, the `None`/catch-all arm of a
+    `match self.f`, `if self.f.is_none()` / the code after `if self.f.is_some() { return .. }`."""
     for kind, cond, pol in H.path_conditions(body, node):
-        if kind == "iflet" and pol is False:
-            v = H.pat_variant(cond["pat"])
-            root, path = H.place_root(cond["init"])
-            if v and v[1] == "Some" and root and root[0] == self_id and [x for x in path if not x.startswith(".")] == [fname]:
+        if kind == "iflet" and _is_self_field(cond["init"], self_id, fname):
+            po = _pat_option(cond["pat"])
+            if (po == "Some" and pol is False) or (po == "None" and pol is True):
+                return True
+        elif kind == "arm":
+            m, ai = cond, pol
+            if _is_self_field(m["scrut"], self_id, fname) and "guard" not in m["arms"][ai]:
+                po = _pat_option(m["arms"][ai]["pat"])
+                earlier = [_pat_option(a["pat"]) for a in m["arms"][:ai] if "guard" not in a]
+                if po == "None" or (po == "any" and "Some" in earlier):
+                    return True
+        elif kind == "if":
+            o = _optionness(cond, self_id, fname)
+            if (o == "None" and pol) or (o == "Some" and not pol):
+                return True
+        elif kind == "after-exit":
+            if _optionness(cond, self_id, fname) == "Some":
+                return True
+        elif kind == "letelse":
+            if _is_self_field(cond["init"], self_id, fname) and _pat_option(cond["pat"]) == "None":
+                return True
+    # inside the diverging `else` block of `let Some(..) = self.f else { .. }` the pattern did not match
+    chain = (H.parents_of(body, node) or []) + [node]
+    for i, p in enumerate(chain[:-1]):
+        if p.get("k") == "let" and p.get("els") is chain[i + 1] and "init" in p:
+            if _is_self_field(p["init"], self_id, fname) and _pat_option(p["pat"]) == "Some":
                 return True
     return False
+
+
+def _arm_value(n):
+    """The value an arm produces: looks through `{ .. }`, `return ..`, and an `Ok(..)` wrapper (`Ok(match self {..})` ≡ arms that
+    each say `Ok(..)` / `return Ok(..)`)."""
+    n = H.peel(n, refs=False)
+    while True:
+        if n.get("k") == "block" and not n["stmts"] and "tail" in n:
+            n = H.peel(n["tail"], refs=False)
+        elif n.get("k") == "ret" and "e" in n:
+            n = H.peel(n["e"], refs=False)
+        elif n.get("k") == "call" and H.ctor_of(n) and H.ctor_of(n)[1] == "Ok" and len(n["args"]) == 1:
+            n = H.peel(n["args"][0], refs=False)
+        else:
+            return n
 
 
 def _returns_self(body, self_id):
